@@ -880,6 +880,7 @@ pub fn miri_workload(seed: u64) -> Workload {
         ],
         fns: FN_NAMES.iter().map(|s| s.to_string()).collect(),
         builtins_disabled: false,
+        aging: 0,
     };
     let mut w = Workload {
         trees: vec![],
